@@ -35,6 +35,8 @@ func init() {
 			{ID: "C09.R16", Text: "a dead follower leaves the group (its chunk is re-assigned): the heart-beat removes exactly the followers whose ping failed, and Retry reports nil ⇔ some attempt succeeded (same rule as C10.R7)", Run: c10r7},
 			{ID: "C09.R17", Text: "the member number of a static group is the one written in the file: an unresolved ${VAR} stays a literal the numeric field refuses, it never becomes the default member 1 (same rule as C17.R4)", Run: c17r4},
 			{ID: "C09.R18", Text: "a follower takes the number its leader sends, from whichever connection it arrives: the RPC handler announces exactly the payload, unconditionally (same rule as C10.R23)", Run: rpcAgreement},
+			{ID: "C09.R19", Text: "the streams of the old chunk are closed before the new chunk is opened: Close runs closeAllStreams synchronously, between the two switches (same rule as C13.R2)", Run: c13r2},
+			{ID: "C09.R20", Text: "every member partitions the same 0..N-1: N handed to the vBucket discovery is the vBucket count of the bucket as the cluster map states it (Client.GetNumVBuckets)", Run: vbCountSource},
 			{ID: "C09.R3", Text: "purity: no globals, goroutines, map ranges; ChunkSlice calls only builtins; Get calls only GetInfo, ChunkSlice and the logger", Run: c09r3},
 		},
 	})
